@@ -2,6 +2,8 @@ HOOK_COMMITS = []
 ENGINES = [
     {"name": "E2", "path": "mc/props/c06.py", "kind_free_text": "explicit-state breadth-first search over call histories of a real Record (state = history replayed on a fresh object, canonical state hash, invariants in every state, differential oracles)",
      "serves_properties": ["C06", "C08"]},
+    {"name": "E4", "path": "mc/props/c20.py", "kind_free_text": "fault enumeration: every fault kind at every conversion index x every pre-existing on-disk state; directory subsets x modes",
+     "serves_properties": ["C20"]},
     {"name": "E1", "path": "mc/engine/core.py", "kind_free_text": "bounded exhaustive input enumeration of the real functions against set-of-bases / truth-table reference models, sharded over processes",
      "serves_properties": ["C01", "C02", "C03", "C04", "C05", "C07", "C08", "C09", "C14", "C15", "C16", "C19"]},
 ]
@@ -91,4 +93,11 @@ CHECKS = {
                      "(halves of one group joined, modulo L) equal the features' extents, same-row areas are disjoint, everything lies in the announced range, "
                      "cores lie in their extents, gene drawings cover exactly the genes.",
                 note="6-7 slots; gene tooltip rendering stubbed (no coordinates); completeness judged on multisets because layout areas carry no identifiers."),
+    "C20": dict(engine="E4", level="fault_enumeration", ref="DESIGN.md 5/C20",
+                technique="exhaustive fault enumeration: every fault kind at every (record, module) conversion index against every pre-existing file state; every subset of a directory-content menu x run mode",
+                text="For 1-3 records x 0-3 module results, each of six fault kinds is injected at every conversion position (and none) into "
+                     "AntismashResults.write_to_file and dump_records, with the target file absent or present: the failure must reach the caller and "
+                     "the bytes and mtime of an existing file must be unchanged; a fault-free write must produce the complete JSON. "
+                     "prepare_output_directory is run on every subset of an 8-entry content menu x {fresh, reuse} x {absent, present, path is a file}.",
+                note="Faults come from harness-supplied ModuleResults subclasses; hidden directory entries outside the alphabet; whole-pipeline ordering not runnable offline."),
 }
